@@ -521,7 +521,7 @@ def construct_ops(w, cell):
             ("MemoryStore.save_to_file / load_from_file", [], lambda: save_load(w, c)),
             ("Report(object_refs=list)", [], lambda: m.Report(name="r", published="2020-01-01T00:00:00Z", object_refs=c if all(isinstance(x, _STIXBase) for x in c) else [x if isinstance(x, _STIXBase) else x["id"] for x in c], allow_custom=True,
                                                                **({"report_types": ["x"]} if v == "2.1" else {"labels": ["threat-report"]}))),
-            ("Relationship(list[0], 'related-to', list[-1])", [], lambda: m.Relationship(c[0], "related-to", c[-1])),
+            ("Relationship(list[0], 'related-to', list[-1])", [], lambda: m.Relationship(c[0] if isinstance(c[0], _STIXBase) else c[0]["id"], "related-to", c[-1] if isinstance(c[-1], _STIXBase) else c[-1]["id"])),
             ("Sighting(list[0], where_sighted_refs=...)", [("where", ids)], lambda: m.Sighting(sighting_of_ref=c[0], where_sighted_refs=[i for i in ids if i.startswith("identity")] or None)),
             ("utils.deduplicate(list)", [], lambda: stix2.utils.deduplicate(c)),
             ("Environment(store).add(list) / relationships / related_to", [], lambda: env_ops(w, c)),
